@@ -1,34 +1,21 @@
 /-
   C08 — composed statements about reading a reference-encoded binary file.
 
-  Interface: the parsed header `specHdr f` (what `ReadHeader` returns for `specHeader f`: format, the vertex element
-  with its scalar properties in file order, the face element with its list properties).  That
-  `parseHeader (specHeader f ++ specBody c f) = .ok (specHdr f, specBody c f)` is NOT proved (header keyword parsing
-  from bytes; only LF / CRLF line reading is); `c08.header` / `c08.read` check it on every generated file.
+  `PlyHeader.specHdr f` is the header `ReadHeader` returns for `specHeader f` (format, the vertex element with its scalar
+  properties in file order, the face element with its list properties, the trimmed comment texts).  That is now a theorem
+  (`ply_spec_header_parses`), so the statements below are also given from FILE BYTES (`…_bytes`).
 -/
 import PolyVerif.Model.Ply
 import PolyVerif.Model.PlySpec
 import PolyVerif.Lemmas.Ply
 import PolyVerif.Lemmas.PlyCompose
+import PolyVerif.Lemmas.PlyHeader
 
 namespace PolyVerif
 namespace C08
-open Ply PlySpec PlyLemmas PlyCompose
+open Ply PlySpec PlyLemmas PlyCompose PlyHeader
 
 variable {α : Type}
-
-/-- the vertex properties of the file as the reader sees them: names and types in FILE order -/
-def specProps (f : SpecFile α) : List (Bytes × SType) := f.vprops.map (fun p => (p.name, p.ty))
-
-/-- the header `ReadHeader` returns for `specHeader f` (comments / obj_info play no role after parsing) -/
-def specHdr (f : SpecFile α) : Header :=
-  { format := f.format
-    elements :=
-      [⟨nm "vertex", f.verts.length, f.vprops.map (fun p => .scalar p.name p.ty)⟩] ++
-      (match f.face with
-       | none => []
-       | some fe => [⟨nm "face", fe.faces.length, fe.lists.map (fun x => .list x.2.1 x.2.2.1 x.2.2.2.1)⟩])
-    comments := [] }
 
 theorem scalarProps_spec (f : SpecFile α) :
     scalarProps (f.vprops.map (fun p => PProp.scalar p.name p.ty)) = some (specProps f) := by
@@ -109,6 +96,28 @@ theorem ply_group_absent_not_built (binary : Bool) (props : List (Bytes × SType
 
 example : buildVec true [(nm "x", .float), (nm "y", .float)] positionAttr [nm "x", nm "y", nm "z"] = none := by decide
 
+/-- THE HEADER TEXT LAYER for foreign-tool files: `ReadHeader` on the reference encoder's header text — vertex properties in
+any order, canonical or alias type spellings, comment / obj_info lines before, between and after the elements, LF or
+CRLF line ends, optional face element with any of the list declarations of the grammar — followed by ANY body returns
+`specHdr f` and leaves exactly the body unread -/
+theorem ply_spec_header_parses (f : SpecFile α) (hok : SpecHeaderOK f) (body : Bytes) :
+    parseHeader (specHeader f ++ body) = .ok (specHdr f, body) :=
+  parse_specHeader f hok body
+
+/-- POINT-CLOUD FILES FROM FILE BYTES: `readMesh (refEncode f)` — header text and body — reads without error to the
+point cloud whose attributes are the columns of the located readers -/
+theorem ply_reads_spec_pointcloud_bytes (c : Coding α) (f : SpecFile α) (hok : SpecHeaderOK f)
+    (hf : f.format ≠ .ascii) (hface : f.face = none)
+    (htyped : ∀ r ∈ f.verts, r.map Datum.ty = f.vprops.map (·.ty))
+    (bl : List (Built × List Nat))
+    (hbuilt : bl.map (·.1) = buildAll true (specProps f) defaultReaders true)
+    (hloc : ∀ p ∈ bl, Located (f.vprops.map (·.ty)) p.1 p.2) :
+    readMesh c defaultReader (refEncode c f)
+      = .ok (applyColumns ⟨.point, (List.range f.verts.length).map Int.ofNat, [], none⟩ (bl.map (·.1))
+          (f.verts.map (rowOf c bl))) := by
+  simp only [readMesh, refEncode, parse_specHeader f hok, bind, Except.bind]
+  exact ply_reads_spec_pointcloud c f hf hface htyped bl hbuilt hloc
+
 /-! non-vacuity: a 2-vertex file `z float, q uchar, x float, y float` (permuted position group + extra 8-bit scalar) -/
 
 def exFile : SpecFile Nat :=
@@ -134,6 +143,20 @@ example : readBody toyCoding defaultReader (specHdr exFile) (specBody toyCoding 
 /-- … and that mesh is what the file denotes: Position = (1,2,3),(4,5,6); `q` = 255/255, 0/255 -/
 example : (readBody toyCoding defaultReader (specHdr exFile) (specBody toyCoding exFile)).toOption.map MeshVal.canon
     = (meaning toyCoding exFile).map MeshVal.canon := by rfl
+
+instance (t : Bytes) : Decidable (Tok t) := by unfold Tok; infer_instance
+
+example : SpecHeaderOK exFile where
+  names := by decide
+  items := by intro i hi; simp [exFile] at hi
+  nverts := by decide
+  nfaces := by intro fe h; simp [exFile] at h
+
+/-- CRLF header with alias spellings, from bytes -/
+example : (parseHeader (specHeader exFile ++ [1, 2, 3])).toOption.map (fun r => (r.1.elements.map (·.name), r.2))
+    = some ([nm "vertex"], [1, 2, 3]) := by
+  rw [ply_spec_header_parses exFile ⟨by decide, by intro i hi; simp [exFile] at hi, by decide, by intro fe h; simp [exFile] at h⟩]
+  rfl
 
 end C08
 end PolyVerif
